@@ -81,7 +81,7 @@ func init() {
 	core.Register(&core.Check{
 		ID: "C18", Level: "other", Title: "Privileged native operations require the right witness",
 		Explain: "Guard dominance on the SSA CFG: for every native-contract method registered with NativeService.Register (enumerated on this run; an unclassified one breaks the check) classified as operator- or owner-privileged, every call that may write contract storage and every success return is dominated by the pass edge of utils.ValidateOwner(native, W) with W the result of GetCurConOperator resp. the named address field of the decoded parameter object; the same for every implementation of HeaderSyncHandler.SyncGenesisHeader (operator). Wrapper chain proved separately: ValidateOwner nil ⇒ CheckWitness true; CheckWitness true ⇒ signer-address equality or calling-context equality; CallingContext indexes contexts[len-2]. InitConfig (genesis-only) must be dominated by a not-yet-initialised guard whose key is one InitConfig writes. NOT decided: cryptographic validity of the signatures behind GetSignatureAddresses (C39).",
-		Run: runC18,
+		Run:     runC18,
 	})
 }
 
@@ -406,6 +406,10 @@ func derivesFromCall(v ssa.Value, obj *types.Func, depth int) bool {
 		}
 	case *ssa.Slice:
 		return derivesFromCall(x.X, obj, depth-1)
+	case *ssa.Alloc:
+		if sv := ir.SingleStore(x); sv != nil {
+			return derivesFromCall(sv, obj, depth-1)
+		}
 	}
 	return false
 }
